@@ -132,3 +132,23 @@ func TestC14Demo_MeasurementEndpointWhereSubquery(t *testing.T) {
 		}
 	}
 }
+
+// A string literal whose body has identifier-placeholder shape, next to a quoted
+// identifier whose text contains a single quote: UnmaskStringLiterals restored
+// the masks one after the other, so the identifier's original was spliced into
+// the already restored literal and its tail became live SQL — a read_parquet on
+// another database's files that neither the deny-list (it saw a quoted literal)
+// nor the permission check ever inspected. (Found by a seeding agent on the
+// unmodified tree.)
+func TestC14Demo_PlaceholderShapedLiteralDoesNotReexpand(t *testing.T) {
+	app, root := c14Env(t)
+	glob := root + "/secretdb/cpu/**/*.parquet"
+	sql := `SELECT '__IDENT_1__' AS a, host AS "' || (SELECT host FROM read_parquet($$` + glob + `$$)) || '" FROM tenant.cpu`
+	code, body := c14Post(t, app, "/api/v1/query", sql)
+	if strings.Contains(body, c14Canary) {
+		t.Errorf("tenant-only caller received secretdb's canary (status %d)", code)
+	}
+	if code == 200 && !strings.Contains(body, `"__IDENT_1__"`) {
+		t.Errorf("the literal '__IDENT_1__' did not come back as itself: %s", body)
+	}
+}
